@@ -380,6 +380,10 @@ func c30Evaluate(rec *evi.Recorder, c *Case, b c30Built, e Encoded, settings fun
 		return
 	}
 	rules := c30Rules(era)
+	pur := newPurity(rec, "C30", era.String(), dtx, fail)
+	pur.watchState(st)
+	defer pur.done()
+	c30History(rec, pur, c, b, e, dtx, st, libSize, sizeErr, fail)
 	sample := func(s *c30Setting, extra map[string]any) map[string]any {
 		m := map[string]any{"era": era.String(), "path": path, "style": b.Styled, "original_len": L, "ref_size": size,
 			"lib_cbor_len": len(libCbor), "lib_TxSizeForFee": libSize, "cbor_vs_original": cmp, "fee": tx.Fee,
@@ -409,6 +413,7 @@ func c30Evaluate(rec *evi.Recorder, c *Case, b c30Built, e Encoded, settings fun
 		p.MinFeeA, p.MinFeeB = s.A, s.B
 		p.MaxTxSize = 1 << 30
 		pp := p.forEra(era)
+		pur.watchParams(pp)
 		mk := func(sz uint64) *big.Int {
 			m := new(big.Int).Mul(new(big.Int).SetUint64(s.A), new(big.Int).SetUint64(sz))
 			return m.Add(m, new(big.Int).SetUint64(s.B))
@@ -429,7 +434,7 @@ func c30Evaluate(rec *evi.Recorder, c *Case, b c30Built, e Encoded, settings fun
 			}
 			return fmt.Sprintf("C30:%s:%s:%s-accepts-underpaying:arithmetic", era, path, entry)
 		}
-		ruleErr := rules.fee(dtx, c.Slot, st, pp)
+		ruleErr := pur.twice("fee rule", func() error { return rules.fee(dtx, c.Slot, st, pp) })
 		rec.Eval()
 		rec.Class(fmt.Sprintf("fee:%s:lib_accepts=%v:ref=%v", s.Label, ruleErr == nil, want))
 		if ruleErr == nil && !want {
@@ -443,6 +448,10 @@ func c30Evaluate(rec *evi.Recorder, c *Case, b c30Built, e Encoded, settings fun
 		}
 		if rules.minFee != nil {
 			mf, mfErr := rules.minFee(dtx, pp)
+			if mf2, mfErr2 := rules.minFee(dtx, pp); mf2 != mf || verdictOf(mfErr2) != verdictOf(mfErr) {
+				fail(fmt.Sprintf("C30:%s:second-run-verdict-differs", era),
+					fmt.Sprintf("%s.MinFeeTx on the same transaction and parameters: first (%d, %v), second (%d, %v)", era, mf, mfErr, mf2, mfErr2), sample(&s, nil))
+			}
 			rec.Eval()
 			switch {
 			case overflow && libOverflow:
@@ -465,7 +474,7 @@ func c30Evaluate(rec *evi.Recorder, c *Case, b c30Built, e Encoded, settings fun
 				}
 			}
 		}
-		full := common.VerifyTransaction(dtx, c.Slot, st, pp, rulesFor(era))
+		full := pur.twice("VerifyTransaction", func() error { return common.VerifyTransaction(dtx, c.Slot, st, pp, rulesFor(era)) })
 		rec.Eval()
 		if full == nil {
 			rec.Class(fmt.Sprintf("%s:%s:full_accepts:ref=%v", era, path, want))
@@ -483,13 +492,24 @@ func c30Evaluate(rec *evi.Recorder, c *Case, b c30Built, e Encoded, settings fun
 	}
 
 	// ---- size -------------------------------------------------------------
-	for _, d := range []int64{-2, -1, 0, 1} {
-		limit := uint64(int64(L) + d)
+	type sizeLimit struct {
+		label string
+		limit uint64
+		full  bool
+	}
+	limits := []sizeLimit{{"L-2", L - 2, false}, {"L-1", L - 1, true}, {"L+0", L, true}, {"L+1", L + 1, false}}
+	// limits at the integer-width boundaries (always far above L)
+	for _, v := range []uint64{1<<32 - 1, 1 << 32, 1<<32 + 1, 1<<53 - 1, 1<<53 + 1, 1<<63 - 1, 1<<63 + 1, ^uint64(0)} {
+		limits = append(limits, sizeLimit{"special", v, false})
+	}
+	for _, sl := range limits {
+		limit, d := sl.limit, sl.label
 		p := c.P
 		p.MaxTxSize = uint(limit)
 		// generous fee parameters so that the whole list depends on the size only
 		p.MinFeeA, p.MinFeeB = 0, 0
 		pp := p.forEra(era)
+		pur.watchParams(pp)
 		want := L <= limit
 		oversizeKey := func(entry string) string {
 			if libShorter && uint64(len(libCbor)) <= limit {
@@ -497,9 +517,19 @@ func c30Evaluate(rec *evi.Recorder, c *Case, b c30Built, e Encoded, settings fun
 			}
 			return fmt.Sprintf("C30:%s:%s:%s-accepts-oversized", era, path, entry)
 		}
-		err := rules.size(dtx, c.Slot, st, pp)
+		err := pur.twice("max-tx-size rule", func() error { return rules.size(dtx, c.Slot, st, pp) })
 		rec.Eval()
-		rec.Class(fmt.Sprintf("size:limit=L%+d:lib_accepts=%v", d, err == nil))
+		rec.Class(fmt.Sprintf("size:limit=%s:lib_accepts=%v", d, err == nil))
+		if err != nil {
+			// the number the rule compares must be the same on a second call
+			g1, ok1 := c30MaxSizeErr(err)
+			g2, ok2 := c30MaxSizeErr(rules.size(dtx, c.Slot, st, pp))
+			if ok1 != ok2 || g1 != g2 {
+				fail(fmt.Sprintf("C30:%s:second-run-verdict-differs", era),
+					fmt.Sprintf("%s max-tx-size rule measures %d bytes on the first and %d bytes on the second call for the same transaction", era, g1, g2),
+					sample(nil, map[string]any{"max_tx_size": limit}))
+			}
+		}
 		if err == nil && !want {
 			fail(oversizeKey("size-rule"),
 				fmt.Sprintf("%s max-tx-size rule accepts an original encoding of %d bytes with maxTxSize %d (Cbor() %d bytes: %s)", era, L, limit, len(libCbor), cmp),
@@ -520,15 +550,15 @@ func c30Evaluate(rec *evi.Recorder, c *Case, b c30Built, e Encoded, settings fun
 				rec.Class("over_rejection_total")
 			}
 		}
-		if d == -1 || d == 0 {
-			full := common.VerifyTransaction(dtx, c.Slot, st, pp, rulesFor(era))
+		if sl.full {
+			full := pur.twice("VerifyTransaction", func() error { return common.VerifyTransaction(dtx, c.Slot, st, pp, rulesFor(era)) })
 			rec.Eval()
 			if full == nil && !want {
 				fail(oversizeKey("rule-list"),
 					fmt.Sprintf("VerifyTransaction(%s rules) accepts an original encoding of %d bytes with maxTxSize %d (%s)", era, L, limit, cmp),
 					sample(nil, map[string]any{"max_tx_size": limit}))
 			}
-			rec.Class(fmt.Sprintf("size:full:limit=L%+d:lib_accepts=%v", d, full == nil))
+			rec.Class(fmt.Sprintf("size:full:limit=%s:lib_accepts=%v", d, full == nil))
 		}
 	}
 }
@@ -565,15 +595,30 @@ func c30Scenarios(era Era) []c30Scenario {
 		{"aux[map-head→w4]", &Styler{Aux: func(n *xcbor.Node) { n.Apply(xcbor.FormW4, 0) }}},
 		{"top[array-head→w2]", &Styler{Top: func(n *xcbor.Node) { n.Apply(xcbor.FormW2, 0) }}},
 	}
+	type variant struct {
+		name string
+		st   *Styler
+		fee  uint64
+	}
+	var variants []variant
 	for _, sty := range styles {
+		variants = append(variants, variant{sty.name, sty.st, 300_000})
+	}
+	// fees at the integer-width boundaries (canonical encoding)
+	for _, f := range []uint64{1<<32 - 1, 1 << 32, 1<<32 + 1, 1<<53 - 1, 1 << 53, 1<<53 + 1, 1<<63 - 1, 1 << 63, 1<<63 + 1, ^uint64(0)} {
+		variants = append(variants, variant{fmt.Sprintf("canonical fee=%d", f), nil, f})
+	}
+	for _, sty := range variants {
 		for _, standalone := range []bool{true, false} {
 			if !standalone && sty.st != nil && sty.st.Top != nil {
 				continue
 			}
 			p := defaultParams(era)
-			tx := &TxSpec{Era: era, Net: 0, Fee: 300_000, TTL: u64p(1000), MetaLabel: u64p(5), Style: sty.st}
-			tx.Ins = []In{{TxID: hash256([]byte("c30/in")), Ix: 0, Key: 0, V: Val{Coin: 100_000_000}}}
-			tx.Outs = []Out{{Addr: payAddr(0, 1), V: Val{Coin: 100_000_000 - tx.Fee}}}
+			tx := &TxSpec{Era: era, Net: 0, Fee: sty.fee, TTL: u64p(1000), MetaLabel: u64p(5), Style: sty.st}
+			// the fee is paid by an input of exactly that size next to a 100-ada input
+			tx.Ins = []In{{TxID: hash256([]byte("c30/in")), Ix: 0, Key: 0, V: Val{Coin: 100_000_000}},
+				{TxID: hash256([]byte("c30/in")), Ix: 1, Key: 0, V: Val{Coin: sty.fee}}}
+			tx.Outs = []Out{{Addr: payAddr(0, 1), V: Val{Coin: 100_000_000}}}
 			tx.ThreeElems = era == Dijkstra && !standalone
 			c := &Case{Tx: tx, P: p, SS: newStSpec(), Slot: 10}
 			e := tx.EncodeAll()
@@ -596,4 +641,107 @@ func c30Scenarios(era Era) []c30Scenario {
 		}
 	}
 	return out
+}
+
+var c30OtherCache = map[Era]ledger.Transaction{}
+
+// c30OtherTx is a fixed, different transaction of the era measured in between.
+func c30OtherTx(era Era) ledger.Transaction {
+	if t, ok := c30OtherCache[era]; ok {
+		return t
+	}
+	tx := &TxSpec{Era: era, Net: 0, Fee: 555_555, TTL: u64p(77), MetaLabel: u64p(9)}
+	tx.Ins = []In{{TxID: hash256([]byte("c30/other/in")), Ix: 3, Key: 1, V: Val{Coin: 900_000_000}}}
+	tx.Outs = []Out{{Addr: payAddr(0, 2), V: Val{Coin: 400_000_000}}, {Addr: payAddr(0, 3), V: Val{Coin: 900_000_000 - 400_000_000 - tx.Fee}}}
+	dtx, err := decodeTx(era, tx.EncodeAll().Raw)
+	if err != nil {
+		panic(err)
+	}
+	c30OtherCache[era] = dtx
+	return dtx
+}
+
+// c30History: the size the library measures for a transaction must not depend
+// on what was measured before -- neither on a different transaction nor on a
+// re-encoding of the SAME body (same transaction hash, different witness-set
+// head, hence a different length), and a second call gives the same number.
+func c30History(rec *evi.Recorder, pur *purity, c *Case, b c30Built, e Encoded, dtx ledger.Transaction, st *State,
+	libSize int, sizeErr error, fail func(key, what string, cs any)) {
+	era := c.Tx.Era
+	histKey := fmt.Sprintf("C30:%s:verdict-depends-on-history", era)
+	s2, err2 := common.TxSizeForFee(dtx)
+	rec.Eval()
+	if s2 != libSize || verdictOf(err2) != verdictOf(sizeErr) {
+		fail(fmt.Sprintf("C30:%s:second-run-verdict-differs", era),
+			fmt.Sprintf("common.TxSizeForFee on the same transaction: first %d (%v), second %d (%v)", libSize, sizeErr, s2, err2),
+			map[string]any{"tx_cbor": evi.Hex(dtx.Cbor())})
+	}
+	rules := c30Rules(era)
+	sizeAt := func(t ledger.Transaction, limit uint64) (bool, uint) {
+		p := c.P
+		p.MaxTxSize = uint(limit)
+		err := rules.size(t, c.Slot, st, p.forEra(era))
+		got, _ := c30MaxSizeErr(err)
+		return err == nil, got
+	}
+	accA, gotA := sizeAt(dtx, uint64(len(b.Original))-1)
+	// (1) another transaction in between
+	other := c30OtherTx(era)
+	_, _ = common.TxSizeForFee(other)
+	_, _ = sizeAt(other, 10)
+	// (2) the same body with a longer witness-set head: same hash, other bytes
+	wn := xcbor.Raw(e.Wits)
+	form := xcbor.FormW4
+	if !wn.CanApply(form) {
+		form = xcbor.FormW8
+	}
+	if wn.CanApply(form) {
+		wn.Apply(form, 0)
+		aux := xcbor.Null()
+		if e.Aux != nil {
+			aux = xcbor.Raw(e.Aux)
+		}
+		var top *xcbor.Node
+		if e.FourElems {
+			top = xcbor.A(xcbor.Raw(e.Body), wn, xcbor.Bool(!c.Tx.Invalid), aux)
+		} else {
+			top = xcbor.A(xcbor.Raw(e.Body), wn, aux)
+		}
+		raw2 := top.Encode()
+		if twin, err := decodeTx(era, raw2); err == nil {
+			rec.Class("history:same_hash_twin_decoded")
+			want := len(raw2)
+			if e.FourElems {
+				want--
+			}
+			got, gerr := common.TxSizeForFee(twin)
+			rec.Eval()
+			if gerr == nil && got != want {
+				key := fmt.Sprintf("C30:%s:standalone:TxSizeForFee-differs-from-original-size:twin", era)
+				if got == libSize {
+					key = histKey // it is the figure of the transaction measured before
+				}
+				fail(key, fmt.Sprintf("common.TxSizeForFee = %d for a %d-byte re-encoding (same body, witness-set head %s; want %d) measured after the %s original of the same hash (size %d)",
+					got, len(raw2), form, want, b.Path, libSize), map[string]any{"twin": evi.Hex(raw2), "first": evi.Hex(b.Original)})
+			}
+			if acc, rep := sizeAt(twin, uint64(len(raw2))-1); acc || (rep != 0 && rep != uint(len(raw2))) {
+				fail(histKey, fmt.Sprintf("%s max-tx-size rule on a %d-byte re-encoding measured after the original of the same hash: accepted=%v at limit %d, reported size %d",
+					era, len(raw2), acc, len(raw2)-1, rep), map[string]any{"twin": evi.Hex(raw2), "first": evi.Hex(b.Original)})
+			}
+		} else {
+			rec.Class("history:same_hash_twin_decode_rejected")
+		}
+	}
+	// (3) the first transaction again
+	s3, err3 := common.TxSizeForFee(dtx)
+	rec.Eval()
+	if s3 != libSize || verdictOf(err3) != verdictOf(sizeErr) {
+		fail(histKey, fmt.Sprintf("common.TxSizeForFee of the same transaction: %d (%v) at first, %d (%v) after other transactions were measured", libSize, sizeErr, s3, err3),
+			map[string]any{"tx_cbor": evi.Hex(dtx.Cbor())})
+	}
+	if acc2, got2 := sizeAt(dtx, uint64(len(b.Original))-1); acc2 != accA || got2 != gotA {
+		fail(histKey, fmt.Sprintf("%s max-tx-size rule on the same transaction at limit L-1: accepted=%v size=%d at first, accepted=%v size=%d after other transactions were measured",
+			era, accA, gotA, acc2, got2), map[string]any{"tx_cbor": evi.Hex(dtx.Cbor())})
+	}
+	pur.rec.Class("purity:history_compared")
 }
